@@ -171,6 +171,9 @@ def run_case(case):
                 viol.append(dict(sig="endpoint-convention", what=f"{name} at x={p['x']}: non-zero entries although the convolution domain is empty"))
             continue
         cellbase = f"{case['kind']}|{case['heavy']}|{case['obs']['prDIS']}|{th['FNS']}"
+        lnn = np.log(np.array(nodes))
+        above = [b - a for a, b in zip(lnn[:-1], lnn[1:]) if np.exp(b) >= p["x"]]
+        steep = 1.0 / min(above) if above else 1.0
         # how well does the basis represent the in-span PDF in floating point on [x,1]?  (monomial-form round-off, grows with
         # degree and node density; the convolution amplifies it near x -> 1: allow 30x the measured residual)
         fnodes = np.array([[pdf.f(pid, xj) for xj in nodes] for pid in cards.PIDS])
@@ -193,7 +196,10 @@ def run_case(case):
             # (a massive kernel's threshold kink inside the range is not among yadism's break points: measured 2.4e-6 relative
             # there, with an error estimate of the same size)
             errt = np.abs(np.asarray(res.orders[(o, 0, 0, 0)][1]))
-            tolm = RTOL[o] * smax + 5.0 * errt + 1e-300
+            # yadism cuts the integration 1e-10 short of the borders (documented integration note); what is lost there grows with the
+            # steepness of the basis functions near the convolution point (~ 1/node spacing in ln x): the rtol was calibrated on
+            # 14-node grids (steepness ~ 1-5) and is scaled up on denser ones (measured 1.9e-7 at NLO for steepness 33)
+            tolm = RTOL[o] * max(1.0, steep / 5.0) * smax + 5.0 * errt + 1e-300
             dm = np.abs(got - e)
             m, d = float(np.max(dm[finite_both] / tolm[finite_both])), float(np.max(dm[finite_both]))
             compared += got.size
@@ -214,7 +220,7 @@ def run_case(case):
             se, ss = span_exp.get(o, 0.0), span_scale.get(o, 0.0)
             # the in-span identity sum_j f(x_j) p_j(u) = f(u) itself only holds up to the round-off of eko's monomial-form basis
             # (measured up to 1e-7 on fine log grids): the span oracle cannot be sharper than that, the replay oracle above is
-            m2_, d2 = run.cmp(contr, se, ss, max(RTOL[o], 1e-7) * 3 + 30.0 * span_resid, float(np.sum(np.abs(np.asarray(res.orders[(o, 0, 0, 0)][1]) * fnodes))) * 5.0 + 1e-300)
+            m2_, d2 = run.cmp(contr, se, ss, max(RTOL[o] * max(1.0, steep / 5.0), 1e-7) * 3 + 30.0 * span_resid, float(np.sum(np.abs(np.asarray(res.orders[(o, 0, 0, 0)][1]) * fnodes))) * 5.0 + 1e-300)
             compared += 1
             classes.add("span")
             if ss > 0:
